@@ -254,6 +254,23 @@ def run(world, rep, tier, only=None):
                    "`%s` handed to %s under a comparison with ->start: %s, with ->end/->real_end: %s" % (T.pp(a)[:20], op, lo, hi))
     rep.floor("C16.e caller-supplied positions handed to backend operations", n_e, 8)
 
+    # ------------------------------------------------------------------ C16.f a copy has the geometry of its source
+    # ext2fs_copy_generic_bmap() must take every header field that the wrappers consult from the *source* - a bitmap's
+    # cluster_bits need not be the file system's (ext2fs_allocate_subcluster_bitmap() makes per-block ones) - or the
+    # copy answers every query in other units than the bits it holds.
+    cpf = gfns.get("ext2fs_copy_generic_bmap")
+    if cpf is None:
+        raise Broken("ext2fs_copy_generic_bmap vanished")
+    REC = "ext2fs_struct_generic_bitmap_64"
+    for fld in ("start", "end", "real_end", "cluster_bits", "bitmap_ops", "magic", "base_error_code"):
+        sts = [n for n in cpf.events("S") if T.last_field(n.ev["lhs"]) == (REC, fld)]
+        same = [n for n in sts if isinstance(T.strip(n.ev.get("rhs")), dict) and T.strip(n.ev["rhs"]).get("k") == "m" and
+                T.last_field(n.ev["rhs"]) == (REC, fld)]
+        other = [n for n in sts if n not in same]
+        rep.ob("C16.f", site(cpf, "copy takes %s from its source" % fld), bool(same) and not other,
+               "new->%s = src->%s: %d such store(s); stores of anything else into it: %s" %
+               (fld, fld, len(same), [(n.line, n.text()[:30]) for n in other]))
+
     # ------------------------------------------------------------------ C16.d set_range assigns in both backends
     # the bit array copies the bytes over the range; the tree must drop what the range held before inserting
     ba = prog.fn("ba_set_bmap_range", "lib/ext2fs/blkmap64_ba.c")
